@@ -100,9 +100,15 @@ THEOREMS = ["ElfioVerif.C17.read_prefix", "ElfioVerif.C17.isolatedRead_prefix",
             "ElfioVerif.ComposeTables.prefix_reloc_sound", "ElfioVerif.ComposeTables.prefix_dynamic_sound",
             "ElfioVerif.ComposeTables.prefix_modinfo_sound",
             "ElfioVerif.ComposeTables.prefix_notes_sound", "ElfioVerif.ComposeTables.prefix_array_sound",
-            "ElfioVerif.ComposeTables.prefix_versym_sound"]
+            "ElfioVerif.ComposeTables.prefix_versym_sound",
+            "ElfioVerif.ComposeTables.prefixLoadedS_of_load", "ElfioVerif.ComposeTables.prefix_segResident",
+            "ElfioVerif.ComposeTables.prefix_segment_notes_sound",
+            "ElfioVerif.ComposeTables.symTabFor_prefix", "ElfioVerif.ComposeTables.prefix_byvalue_sound",
+            "ElfioVerif.ComposeTables.symTabFor_prefix_ok", "ElfioVerif.ComposeTables.prefix_byname_sound_partial",
+            "ElfioVerif.ComposeTables.prefix_verneed_sound", "ElfioVerif.ComposeTables.prefix_verdef_sound",
+            "ElfioVerif.ComposeTables.prefix_segment_notes_sound_range"]
 EXTRA_IMPORTS = ["ElfioVerif.Props.Compose", "ElfioVerif.Props.ComposeTables", "ElfioVerif.Props.ComposeTables2",
-                 "ElfioVerif.Props.ComposeTables3"]
+                 "ElfioVerif.Props.ComposeTables3", "ElfioVerif.Props.ComposeTables4"]
 SITES = ["conv", "load_s", "sec32_load", "sec64_load", "seg32_load", "seg64_load", "seg32_range", "seg64_range"]
 RULE = ("(image, k): object 0 loads the complete well-formed image, object 1 its prefix of length k, both "
         "observed identically; images from tools/elfspec.py in 4 configurations and small bundled examples; "
